@@ -126,7 +126,7 @@ def c01(ctx):
     _seq_stage(ctx, "C01", n, ["--directed"])
     ctx.rule = ("generated histories (insert incl. duplicates, remove incl. absent keys, get, empty, clear, quiescent states for olc_db) of ~300-900 "
                 "operations over key-set families {dense, sparse, boundary, per-byte alphabets of sizes 1,2,3,4,5,16,17,48,49,256, zero-terminated "
-                "mixed-length strings, deep fixed-length strings, encoder-shaped keys, full256 (one node filled with all 256 children - where the 8-bit child counter wraps -, kept around the 255/256 boundary, cleared and destroyed while full)}, round-robin over {db, mutex_db, olc_db} x {uint64, key_view}; "
+                "mixed-length strings, deep fixed-length strings, encoder-shaped keys, full256 (one node filled with all 256 children - where the 8-bit child counter wraps -, kept around the 255/256 boundary, cleared and destroyed while full), longtail (distinct short heads, unshared tails of up to 700 bytes, beyond the iterator's inline key buffer), the empty key alone}, round-robin over {db, mutex_db, olc_db} x {uint64, key_view}; "
                 "every return value compared with a byte-string map, up to 24 held value views re-read after every operation. Half of the olc_db histories run with a second "
                 "QSBR-registered companion thread (it only passes through quiescent states on request), so that reclamation is really deferred: there the views of an "
                 "entry survive the caller's own remove and are re-read until the caller's next quiescent state. A history is "
@@ -499,7 +499,7 @@ def c13(ctx):
         ctx.stage("free-asan", "mutex_lin", "dbg-asan", [["--seed", str(ctx.seed * 100 + 90 + i), "--first", "0", "--cases", str(scaled(150000))] for i in range(4)],
                   timeout=7200, build_kwargs=libs)
     ctx.rule = ("rounds: a fresh mutex_db<uint64>, 2-8 keys sharing prefixes (20% of rounds with static ballast keys so the branching node crosses 4/16/48 children), "
-                "pre-populated, then 2-8 free-running std::threads x 2-6 operations {insert(unique value), remove, get, empty, scan} released by a spin barrier, with "
+                "pre-populated, then 2-8 free-running std::threads x 2-6 operations {insert(unique value, 1 in 7 of length 0), remove, get, empty, scan / reverse scan / scan_from / scan_range over the whole key space, clear} released by a spin barrier, with "
                 "per-thread timing perturbation; stamps from one atomic counter around every call. Oracles: per-key linearizability (Wing-Gong) incl. a final "
                 "snapshot; owns_lock() == hit on every get; value bytes re-read under the held handle; hold-window rule (no other thread's operation called and "
                 "returned inside a hold); interposed pthread_mutex monitor (held count 0 after every call, 1 exactly after a hit) in the non-TSan build; ThreadSanitizer "
